@@ -453,7 +453,10 @@ impl<'a> PGen<'a> {
                 D::JoinOn(k, ons, Box::new(d), Box::new(r))
             }
             12 | 13 => { // aggregate
-                let nk = *self.rng.pick(&[0usize, 1, 1, 2]);
+                // DataFrame::aggregate adds the columns that functionally depend on the keys (e.g. everything, when the input is itself
+                // grouped by those keys) to the group-by list AND to the output (proposed finding C48-KF1, fixed witness KF1): random
+                // pipelines group an already grouped input only globally
+                let nk = if has_keyed_agg(&d) { 0 } else { *self.rng.pick(&[0usize, 1, 1, 2]) };
                 let mut keys = vec![];
                 for _ in 0..nk { let i = self.rng.below(s.len() as u64) as usize; if !keys.iter().any(|k: &usize| s[*k].1 == s[i].1) { keys.push(i); } }
                 let ts = Self::tys(&s);
@@ -517,6 +520,14 @@ impl<'a> PGen<'a> {
     }
 }
 
+fn has_keyed_agg(d: &D) -> bool {
+    match d {
+        D::Table(..) => false,
+        D::Aggregate(ks, _, d1) => !ks.is_empty() || has_keyed_agg(d1),
+        D::Filter(_, d1) | D::Select(_, d1) | D::WithColumn(_, _, d1) | D::Rename(_, _, d1) | D::Drop(_, d1) | D::Sort(_, d1) | D::Limit(_, _, d1) | D::Distinct(d1) => has_keyed_agg(d1),
+        D::Join(_, _, _, _, l, r) | D::JoinOn(_, _, l, r) | D::Union(_, l, r) | D::UnionByName(_, l, r) | D::Intersect(_, l, r) | D::Except(_, l, r) => has_keyed_agg(l) || has_keyed_agg(r),
+    }
+}
 fn v(i: i64) -> V { V::I(i) }
 fn sv(x: &str) -> V { V::S(x.to_string()) }
 /// fixed witness corpus (ids 1000000 + k), run first on every invocation
@@ -539,7 +550,18 @@ fn witnesses() -> Vec<(&'static str, Vec<Tab>, D, Option<Tail>)> {
     // W4 join_on with a non-equi expression, aggregate, sort + limit
     let jo = D::JoinOn(JK::Left, vec![E::Cmp("<", Box::new(c(0)), Box::new(c(3)))], Box::new(D::Table(0, 1, 3)), Box::new(D::Table(1, 2, 2)));
     let w4 = D::Aggregate(vec![1], vec![(Agg::CountStar, E::Lit(v(1), Ty::Int), 121), (Agg::Sum, c(4), 122)], Box::new(jo));
-    vec![("W1", vec![t0.clone(), t1.clone()], w1, None), ("W2", vec![t0.clone(), t1.clone()], w2, None), ("W3", vec![t0.clone(), t1.clone()], w3, Some(t3)), ("W4", vec![t0, t1], w4, None)]
+    // W5 with_column_renamed keeps the qualifier: the renamed column is referenced as a2.n20 afterwards
+    let j5 = D::Join(JK::Inner, vec![0], vec![0], None, Box::new(D::Table(0, 1, 3)), Box::new(D::Table(1, 2, 2)));
+    let w5 = D::Filter(E::Cmp(">", Box::new(c(3)), Box::new(E::Lit(v(0), Ty::Int))), Box::new(D::Rename(CRef { q: Some(2), n: 0 }, 120, Box::new(j5))));
+    // W6 join_on RIGHT with an expression key, union_by_name of two aggregates
+    let w6 = D::JoinOn(JK::Right, vec![E::Cmp("=", Box::new(E::Arith("+", Box::new(c(0)), Box::new(E::Lit(v(1), Ty::Int)))), Box::new(c(3)))], Box::new(D::Table(0, 1, 3)), Box::new(D::Table(1, 2, 2)));
+    // KF1 aggregate over an input grouped by the same key: t1.aggregate([c0], [count(c1) AS n30]).aggregate([c0], [sum(n30) AS n31])
+    let kf1 = D::Aggregate(vec![0], vec![(Agg::Sum, c(1), 131)], Box::new(D::Aggregate(vec![0], vec![(Agg::Count, c(1), 130)], Box::new(D::Table(1, 1, 2)))));
+    // KF2 (C03-KF5 through a join): t1.aggregate([], [count(c1) AS n40]).join_on(t0, Inner, [n40 <> 3, NULL IN (n40, a2.c0)])
+    let kf2 = D::JoinOn(JK::Inner, vec![E::Cmp("<>", Box::new(c(0)), Box::new(E::Lit(v(3), Ty::Int))), E::InList(false, Box::new(E::Lit(n.clone(), Ty::Int)), vec![c(0), c(1)])],
+        Box::new(D::Aggregate(vec![], vec![(Agg::Count, c(1), 140)], Box::new(D::Table(1, 1, 2)))), Box::new(D::Table(0, 2, 3)));
+    vec![("KF1", vec![t0.clone(), t1.clone()], kf1, None), ("KF2", vec![t0.clone(), t1.clone()], kf2, None), ("W5", vec![t0.clone(), t1.clone()], w5, None), ("W6", vec![t0.clone(), t1.clone()], w6, None),
+         ("W1", vec![t0.clone(), t1.clone()], w1, None), ("W2", vec![t0.clone(), t1.clone()], w2, None), ("W3", vec![t0.clone(), t1.clone()], w3, Some(t3)), ("W4", vec![t0, t1], w4, None)]
 }
 
 fn run_case(id: u64, stream: &str, tabs: &[Tab], d: &D, tail: &Option<Tail>, tp: usize, bs: usize, secs: u64) {
